@@ -43,7 +43,7 @@ deriving Repr, DecidableEq, Inhabited
 /-- FSM states as the peer manager sees them (`fsmState`) -/
 inductive St where
   | disabled | idle | connect | active | openSent | openConfirm | established
-deriving Repr, DecidableEq, Inhabited
+deriving Repr, DecidableEq, Inhabited, Hashable
 
 def St.rank : St → UInt8
   | .disabled => Gen.disabledState | .idle => Gen.idleState | .connect => Gen.connectState
